@@ -40,4 +40,26 @@ theorem ofFn_congr (R C T : Nat) (f g : Nat → Nat → Nat → α)
 theorem ofFn_size (R C T : Nat) (f : Nat → Nat → Nat → α) : (Tens.ofFn R C T f).size = R * C * T := by
   simp [Tens.ofFn, Tens.size]
 
+/-- well-sized: the flat array has exactly `R*C*T` entries (true of every tensor the model builds) -/
+def _root_.MT.Tens.Sized (t : Tens α) : Prop := t.data.size = t.R * t.C * t.T
+
+theorem ofFn_sized (R C T : Nat) (f : Nat → Nat → Nat → α) : (Tens.ofFn R C T f).Sized := by
+  simp [MT.Tens.Sized, Tens.ofFn]
+
+theorem zeros_sized (R C T : Nat) : (Tens.zeros R C T : Tens α).Sized := by
+  simp [MT.Tens.Sized, Tens.zeros]
+
+/-- reading a matrix beyond its last column gives the stored-nothing value zero -/
+theorem get_col_oob (t : Tens α) (hs : t.Sized) (hT : t.T = 1) {i k : Nat} (hi : i < t.R) (hk : t.C ≤ k) :
+    t.get i k 0 = MTExtra.zero := by
+  unfold Tens.get
+  rw [Array.getD_eq_getD_getElem?, Array.getElem?_eq_none]
+  · rfl
+  · rw [hs, hT, MTProps.C18.index_eq_spec]
+    unfold MTProps.C18.spec
+    have : t.C * t.R ≤ k * t.R := Nat.mul_le_mul_right _ hk
+    calc t.R * t.C * 1 = t.C * t.R := by rw [Nat.mul_one, Nat.mul_comm]
+      _ ≤ k * t.R := this
+      _ ≤ 0 * t.R * t.C + k * t.R + i := by omega
+
 end MTProofs
